@@ -421,3 +421,95 @@ func exploreNode(c *vx.Ctx, props string, maxDev int, bfsDepth int, st *exploreS
 		c.Extra["engine_bfs_distinct_states"] = len(seen)
 	}
 }
+
+func netOps(level string) []string {
+	ops := []string{"DROP", "LATE", "DUP"}
+	for j := 0; j < 3; j++ {
+		ops = append(ops, fmt.Sprintf("TF:%d", j), fmt.Sprintf("RST:%d", j))
+	}
+	tos := []string{"0", "1", "2", "all"}
+	if level == "core" {
+		ops = []string{"DROP", "LATE", "TF:0", "TF:1", "RST:0", "RST:2"}
+		tos = []string{"0", "1"}
+	}
+	for _, to := range tos {
+		ops = append(ops, "BYZ:ph:A:"+to, "BYZ:ph:B:"+to)
+		for _, k := range []string{"p", "c"} {
+			for _, t := range []string{"P0", "P1", "nil"} {
+				ops = append(ops, fmt.Sprintf("BYZ:%s:%s:%s", k, t, to))
+			}
+			if level != "core" {
+				ops = append(ops, fmt.Sprintf("BYZ:%s:P2:%s", k, to), fmt.Sprintf("BYZ:%s:X:%s", k, to))
+			}
+		}
+	}
+	return ops
+}
+
+// exploreNet: the three-engine network with 0, 1 and (thorough, core ops) 2 deviations from the FIFO schedule,
+// and every single deviation after each adversarial seed prefix.
+func exploreNet(c *vx.Ctx, heights int, maxDev int, seeds [][]string) {
+	st := &exploreStats{keys: map[string]struct{}{}}
+	args := func() map[string]string { return map[string]string{"heights": fmt.Sprint(heights)} }
+	base := c.Pool.Map([]vx.Job{{Exec: "net", Args: args()}})[0]
+	steps := int(base.Counters["steps"])
+	c.Absorb(vx.Job{Exec: "net", Args: args()}, base)
+	c.Extra["default_schedule_steps"] = steps
+	c.Extra["default_schedule_messages"] = base.Counters["messages"]
+	if base.Counters["min_heights_finalized_by_every_node"] < int64(heights) {
+		c.HarnessError(fmt.Sprintf("the default schedule did not finalize %d heights on every node (outcome %s)", heights, base.Outcome))
+	}
+	n := 0
+	each := func(j vx.Job, r vx.Result) {
+		n++
+		if n%499 == 1 {
+			c.Sample(map[string]any{"deviations": j.Hist, "outcome": r.Outcome, "finalized": r.Key})
+		}
+	}
+	c.Sample(map[string]any{"deviations": []string{}, "outcome": base.Outcome, "finalized": base.Key})
+	var jobs []vx.Job
+	full := netOps("full")
+	for s := 0; s <= steps; s++ {
+		for _, op := range full {
+			jobs = append(jobs, vx.Job{Exec: "net", Hist: []string{fmt.Sprintf("%d:%s", s, op)}, Args: args()})
+		}
+	}
+	c.Extra["single_deviations"] = len(jobs)
+	completed := 0
+	if runJobs(c, jobs, st, []string{"C03"}, each) {
+		completed = 1
+	}
+	for si, seed := range seeds {
+		var js []vx.Job
+		first := devPos(seed[len(seed)-1])
+		for s := first; s <= steps+10; s++ {
+			for _, op := range full {
+				js = append(js, vx.Job{Exec: "net", Hist: append(append([]string{}, seed...), fmt.Sprintf("%d:%s", s, op)), Args: args()})
+			}
+		}
+		js = append(js, vx.Job{Exec: "net", Hist: seed, Args: args()})
+		ok := runJobs(c, js, st, []string{"C03"}, each)
+		c.Extra[fmt.Sprintf("seed_%d", si)] = map[string]any{"prefix": seed, "executions": len(js), "completed": ok}
+	}
+	if completed == 1 && maxDev >= 2 {
+		core := netOps("core")
+		var pairs []vx.Job
+		for s1 := 0; s1 <= steps; s1++ {
+			for _, o1 := range core {
+				for s2 := s1; s2 <= steps; s2++ {
+					for _, o2 := range core {
+						if s1 == s2 && o1 >= o2 {
+							continue
+						}
+						pairs = append(pairs, vx.Job{Exec: "net", Hist: []string{fmt.Sprintf("%d:%s", s1, o1), fmt.Sprintf("%d:%s", s2, o2)}, Args: args()})
+					}
+				}
+			}
+		}
+		c.Extra["double_deviations"] = len(pairs)
+		if runJobs(c, pairs, st, []string{"C03"}, each) {
+			completed = 2
+		}
+	}
+	c.Extra["deviation_bound_completed"] = completed
+}
